@@ -249,7 +249,7 @@ func decodeRecord(reader *bytes.Reader, baseOffset int64, baseTimestamp int64, t
 		return Record{}, err
 	}
 
-	timestampDelta, err := readVarint(buf)
+	timestampDelta, err := readVarlong(buf)
 	if err != nil {
 		return Record{}, err
 	}
@@ -366,6 +366,27 @@ func readVarint(reader *bytes.Reader) (int32, error) {
 		}
 	}
 	return zigZagDecode(value), nil
+}
+
+// readVarlong reads a zig-zag varlong (a Kafka record's timestampDelta is 64-bit).
+func readVarlong(reader *bytes.Reader) (int64, error) {
+	var value uint64
+	var shift uint
+	for {
+		b, err := reader.ReadByte()
+		if err != nil {
+			return 0, err
+		}
+		value |= uint64(b&0x7f) << shift
+		if b&0x80 == 0 {
+			break
+		}
+		shift += 7
+		if shift > 63 {
+			return 0, errors.New("varlong too long")
+		}
+	}
+	return int64(value>>1) ^ -int64(value&1), nil
 }
 
 func zigZagDecode(value int32) int32 {
